@@ -12,9 +12,41 @@ A4 = 'A4 RefCell/Rc: receivers are modelled as plain (mutable) references; Borro
 A5 = 'A5 opaque handles: Weak<RefCell<ContextInfo>> is an opaque value with a fixed ghost id that may be dead'
 A6 = 'A6 machine arithmetic: Verus keeps usize width symbolic (32/64); Kani is x86-64; f64 is bit-precise in CBMC; Verus never reasons about floats'
 A7 = 'A7 inert node: func.rs functions ignore their XmlNode argument when given all arguments; harnesses pass a zeroed, never-read node'
+A9 = 'A9 expression model: xpath::expr::model values are opaque handles; the accessor stubs promise only that Or/And expressions have at least one operand (the parser builds them with separated_list1); Number lexemes parse as f64'
+A10 = 'A10 DOM handles: dom::XmlNode is an opaque value with an uninterpreted order key; owner_document() is Some for every non-Document node; nothing is assumed about parent_node(), the axes, as_expanded_name(), the function library except that it leaves the context stacks alone and returns no unordered node-set'
+A11 = 'A11 termination of the mutually recursive eval_* functions is not verified (exec_allows_no_decreases_clause): structural recursion over an opaque expression tree; every loop ranges over a finite vector'
 A8 = 'A8 toolchains: Verus compiles the extracted text with Rust 1.98.1, Kani with its pinned nightly, the repo tests with 1.95; std behaviour assumed identical'
 
+
+EVAL_FUNCS = 'eval_expr, eval_or_expr, eval_and_expr, eval_eq_expr, eval_relational_expr, eval_add_expr, eval_mul_expr, eval_unary_expr, eval_union_expr, eval_path_expr, eval_filter_expr, eval_primary_expr, eval_filtered_loc_expr, eval_loc_expr, eval_step_expr, eval_axis_node_test, eval_node_test, eval_predicate, eval_func_expr'
+
 PROPS = {
+    'C19': dict(
+        verus_units=['eval_ctx'],
+        level='proof',
+        trusted_base=TRUSTED_VERUS,
+        assumptions=[A2 + ' (into_iter().enumerate(), iter().skip(1), sort_by_cached_key, HashSet+retain, flat_map, reverse)', A4, A9, A10, A11, A8],
+        not_decided='determinism of parsing and of evaluation itself, and "a query does not change the document" (live graph, nom); only the context-restoration half of C19 is decided',
+        explanation='context-stack balance of the XPath evaluator: all 19 eval_* functions of xpath/src/eval/mod.rs and the six push/pop/get methods of model::Context are extracted and each is verified against the contracts of its callees: when a function returns, with Ok or with Err, the size and position stacks and the namespace bindings of the caller\'s context are exactly what they were on entry; so a query that fails inside a predicate cannot change the answer of a later query on the same context',
+    ),
+    'C07': dict(
+        verus_units=['eval_ctx'],
+        level='proof',
+        trusted_base=TRUSTED_VERUS,
+        assumptions=[A2 + ' (sort_by_cached_key = ascending permutation; HashSet+retain = keep the first node of every key)', A9, A10, A11, A8,
+                     'order keys are taken as given (uninterpreted): that distinct attached nodes have distinct keys in document order is C14, not decided here'],
+        not_decided='that the selected nodes are the right ones (axes, node tests: live graph) and the set-algebra laws as equalities between queries; order keys themselves (C14)',
+        explanation='ordering and duplicate-freeness of node-sets in the evaluator skeleton: every value-returning eval_* function promises that a node-set value lists strictly increasing order keys (eval_path_expr / eval_filtered_loc_expr: non-strictly, after the sort); eval_union_expr must re-establish it over the concatenation of its operands, eval_filter_expr must keep it through predicate filtering (so positional predicates on a parenthesised node-set count in document order)',
+    ),
+    'C06': dict(
+        verus_units=['eval_ctx'],
+        level='proof',
+        trusted_base=TRUSTED_VERUS,
+        assumptions=[A2, A9, A10, A11, A8],
+        not_decided='the nom expression grammar (parse totality, backtracking cost), the axes and comparison helpers over live nodes, the function library bodies (func.rs: id(), substring), running time',
+        explanation='panic-freedom of the evaluator skeleton: in the 19 extracted eval_* functions every Option::unwrap, every unimplemented!/unreachable!, every arithmetic operation is a proof obligation (unwrap needs `is Some`, unimplemented! is a call of a function with `requires false`); nothing is assumed about parent_node() or the axes',
+    ),
+
     'C18': dict(
         verus_units=['c18_xmlchar'],
         kani=['c18'],
@@ -78,18 +110,30 @@ NOT_APPLICABLE = {
     'C01': 'acceptance and infoset construction are ~80 nom-combinator productions plus Rc<RefCell> item construction; Verus cannot import nom or express its impl-FnMut combinators, Kani did not finish a 2-byte symbolic input in 15 min nor a concrete 9-byte document in 10 min; no contract within reach states "every well-formed document"',
     'C03': 'totality of parse/print is a property of the recursive nom grammar, unimplemented! arms reachable only with a live document, recursion depth and running time; none is expressible as a contract on a function either verifier can load',
     'C05': 'the evaluator recurses over live dom::XmlNode graphs (Rc<RefCell>, order keys through HashMap/Weak); building a three-node document under Kani exceeds 8 min/3.5 GB and Verus has no model of the graph; the scalar leaves are decided under C09',
-    'C06': 'every panic/abort site named by the property sits in evaluator code that needs a live node or the nom expression grammar; exponential backtracking is a running-time claim; the one reachable piece (totality of substring) is decided under C09',
-    'C07': 'node-set ordering/dedup is sort_by_cached_key/HashSet over XmlNode::order() of live nodes inside the evaluator; not separable from the object graph',
     'C08': 'spelling equivalence and precedence are properties of the nom expression grammar (relations between strings), outside both verifiers',
     'C10': 'not decided: the only piece within reach (model::Context::{add_ns,remove_ns,get_ns_uri,expanded_name}) needs symbolic strings, which Kani handles only as a small bounded run (55 s / 4.5 GB for 2 prefixes, measured) and which Verus cannot read (HashMap<String,String> iteration); the document side (in-scope namespaces, xmlns="", attributes, name tests) is live-graph code. The bounded stand-in described in DESIGN §4 was not built, so nothing is claimed',
     'C12': 'the tree invariant quantifies over histories on the aliasing object graph (children vectors vs parent_id via id_map); a ghost-tree proof is a protocol-level invariant beyond this task and Kani cannot build the objects',
     'C14': 'not decided: pre-order of the keys and query equivalence are whole-tree / evaluator facts outside both verifiers; the DocumentOrder layer (get/push/remove/insert_after/insert_before over Vec<Weak<RefCell<ContextInfo>>>) is within reach of Verus only through opaque-handle shims (DESIGN §4 C14) and that unit was not built, so nothing is claimed',
     'C15': 'not decided: "the serialization is accepted by the parser" is a statement about the nom grammar; the one-call fragment (validity of the joined string after insert/delete) needs the three nom checkers as specifications, which this technique can only assume (A3), and the unit of DESIGN §4 C15 was not built, so nothing is claimed. Seen with the replay binary, not by a verifier: text "]]" + insert_data(2, ">") succeeds and stores "]]>"',
     'C17': 'the CLIs compose file I/O, both nom grammars, the evaluator, DOM mutation and the printer; nothing in them is a function a contract can isolate',
-    'C19': 'determinism and context-stack balance after failed queries need query() (nom grammar + evaluator + live nodes); the push/pop primitives are trivially correct in isolation and say nothing about pairing at the call sites',
 }
 
 MANIFEST_TEXT = {
+    'C19': dict(
+        level_text='Proof (Verus, modular over 19 mutually recursive functions + 6 Context methods, all expression shapes and node lists) that every eval_* function of the XPath evaluator returns with the caller\'s context stacks and namespace bindings exactly restored, on Ok and on Err. Context-restoration half of C19 only.',
+        level_note='Trusted: Verus+Z3, extractor and rewrite table, std iterator shims, opaque expression/DOM handles (A9, A10); recursion termination not verified (A11); a panic unwinding through the evaluator is outside the contract (that is C06). Not decided: determinism, documents unchanged by queries.',
+        technique='contract-based deductive verification (Verus frame postcondition old/final on extracted real functions, induction over the mutual recursion by callee contracts, loop invariants)',
+        design_ref='DESIGN.md §9'),
+    'C07': dict(
+        level_text='Proof (Verus) that node-set values produced by the evaluator skeleton are strictly increasing in document-order key (hence duplicate-free): union re-sorts and de-duplicates, filter expressions keep the order, location paths are sorted before they reach the union level. Over uninterpreted order keys; ordering/dedup clause of C07 only.',
+        level_note='Trusted as C19 plus the contracts of the sort and dedup shims; two induction lemmas (dedup of a sorted sequence is strictly sorted) are proved in the unit. Not decided: which nodes are selected, set-algebra equalities, the keys themselves (C14).',
+        technique='contract-based deductive verification (Verus postconditions over an abstract order key, lemmas by induction, loop invariants)',
+        design_ref='DESIGN.md §9'),
+    'C06': dict(
+        level_text='Proof (Verus) that the 19 eval_* functions of the evaluator cannot panic: every unwrap, unimplemented!/unreachable! site and arithmetic operation in them is a discharged obligation, with nothing assumed about parent_node() or the axes. Evaluator-skeleton clause of C06 only.',
+        level_note='Trusted as C19. Not decided: the expression grammar, helper functions over live nodes, the function library bodies, running time.',
+        technique='contract-based deductive verification (Verus safety obligations: callee preconditions of Option::unwrap, `requires false` at panic sites, overflow)',
+        design_ref='DESIGN.md §9'),
     'C18': dict(
         level_text='Proof, for all 1,114,112 scalar values, that is_char/is_name_start_char/is_name_char/is_pubid_char/is_enc_name and the three *_except helpers equal the range tables of productions [2][4][4a][13][81]: Verus discharges one postcondition per function on the extracted real text (is_name_char modularly against is_name_start_char), and loop-free Kani harnesses over kani::any::<char>() on the real crate repeat it with an independent back end. Classification half of C18 only.',
         level_note='Trusted: Verus+Z3, Kani+CBMC, the extractor (verbatim ratio reported), the hand transcription of the W3C tables (spec/xml_chars.json), three assumed std contracts (char::is_ascii_*) on the Verus side. Not decided: the name productions (nom).',
